@@ -502,12 +502,27 @@ func (bc *BlockChain) insert(block *types.Block) {
 	updateHeads := GetCanonicalHash(bc.db, block.NumberU64()) != block.Hash()
 
 	// Add the block to the canonical chain number scheme and mark as the head
-	if err := WriteCanonicalHash(bc.db, block.Hash(), block.NumberU64()); err != nil {
-		log.Crit("Failed to insert block number", "err", err)
+	// (atomically: a crash must not leave the index and the head pointer disagreeing)
+	batch := bc.db.NewBatch()
+	if err := bc.writeHead(batch, block); err != nil {
+		log.Crit("Failed to insert head block", "err", err)
 	}
-	if err := WriteHeadBlockHash(bc.db, block.Hash()); err != nil {
-		log.Crit("Failed to insert head block hash", "err", err)
+	if err := batch.Write(); err != nil {
+		log.Crit("Failed to insert head block", "err", err)
 	}
+	bc.insertHeads(block, updateHeads)
+}
+
+// writeHead adds the canonical number assignment and the head block pointer to a batch.
+func (bc *BlockChain) writeHead(batch aquadb.Batch, block *types.Block) error {
+	if err := WriteCanonicalHash(batch, block.Hash(), block.NumberU64()); err != nil {
+		return err
+	}
+	return WriteHeadBlockHash(batch, block.Hash())
+}
+
+// insertHeads is the in-memory part of insert, plus the header and fast block pointers.
+func (bc *BlockChain) insertHeads(block *types.Block, updateHeads bool) {
 	bc.currentBlock.Store(block)
 
 	// If the block is better than our head or is on a different chain, force update heads
@@ -1027,13 +1042,20 @@ func (bc *BlockChain) WriteBlockWithState(block *types.Block, receipts []*types.
 	} else {
 		status = SideStatTy
 	}
+	// Set new head. The number assignment and the head pointer travel in the same batch as the
+	// block data: a crash never leaves a head pointer without its block, nor a stored block
+	// that is heavier than the head it did not become.
+	updateHeads := GetCanonicalHash(bc.db, block.NumberU64()) != block.Hash()
+	if status == CanonStatTy {
+		if err := bc.writeHead(batch, block); err != nil {
+			return NonStatTy, err
+		}
+	}
 	if err := batch.Write(); err != nil {
 		return NonStatTy, err
 	}
-
-	// Set new head.
 	if status == CanonStatTy {
-		bc.insert(block)
+		bc.insertHeads(block, updateHeads)
 	}
 	bc.futureBlocks.Remove(block.Hash())
 	return status, nil
@@ -1411,6 +1433,12 @@ func (bc *BlockChain) reorg(oldBlock, newBlock *types.Block) error {
 	var addedTxs types.Transactions
 	var err error
 	for i := len(newChain) - 1; i >= 0; i-- {
+		if i == 0 && !bc.HasBlock(newChain[0].Hash(), newChain[0].NumberU64()) {
+			// The incoming block itself is not on disk yet: WriteBlockWithState makes it the
+			// head together with its data, a head pointer must never name a missing block
+			addedTxs = append(addedTxs, newChain[0].Transactions()...)
+			break
+		}
 		// insert the block in the canonical way, re-writing history
 		bc.insert(newChain[i])
 		// write lookup entries for hash based transaction/receipt searches
